@@ -2,6 +2,7 @@
 //! interfaces, captured egress, injected ingress), a harness-side network and a history log.
 
 pub mod peer;
+pub mod wire;
 
 use crate::refdns::{self, Message};
 use mdns_sd::verif::{Datagram, Egress, Phase, SimHandle, SimIf};
